@@ -1,7 +1,9 @@
 #!/venv/bin/python
 """Verify a seeded change and run the checks against it.
 
-usage: try_seed.py <dir with patch.diff, demo.py, meta.json> [--props C01,C04] [--keep-as NAME]
+usage: try_seed.py <dir with patch.diff, demo.py, meta.json> [--props C01,C04] [--keep-as NAME] [--copy]
+With --copy nothing in /repo is touched: the patch is applied to a scratch copy of /repo/happysimulator under /tmp (removed afterwards)
+and demo and checks are pointed at it (HS_ROOT / --root).
 Applies patch to /repo (must be clean), runs demo (expects exit 1), runs the quick checks of the listed properties
 (default: the property in meta.json), reverts, runs demo again (expects exit 0).  With --keep-as copies the change to
 /verif/seeded/NAME/ and records what was run.
@@ -20,22 +22,34 @@ def main():
         if a == "--keep-as": keep = sys.argv[i + 1]
     meta = json.load(open(f"{d}/meta.json"))
     props = props or [meta["property"]]
-    assert sh("git -C /repo status --porcelain").stdout.strip() == "", "/repo not clean"
-    r = sh(f"git -C /repo apply {d}/patch.diff")
-    if r.returncode:
-        print("PATCH DOES NOT APPLY", r.stderr); return 2
+    copy = "--copy" in sys.argv
     out = {"checks": {}}
+    if copy:
+        root = "/tmp/seedcopy_%d" % os.getpid()
+        shutil.rmtree(root, ignore_errors=True)
+        os.makedirs(root)
+        shutil.copytree("/repo/happysimulator", f"{root}/happysimulator")
+        r = sh(f"cd {root} && patch -p1 -s < {d}/patch.diff")
+    else:
+        root = "/repo"
+        assert sh("git -C /repo status --porcelain").stdout.strip() == "", "/repo not clean"
+        r = sh(f"git -C /repo apply {d}/patch.diff")
+    if r.returncode:
+        print("PATCH DOES NOT APPLY", r.stderr, r.stdout); return 2
     try:
-        comp = sh("cd /repo && /venv/bin/python -m compileall -q happysimulator")
-        demo_with = sh(f"cd /tmp && HS_ROOT=/repo timeout 120 /venv/bin/python {d}/demo.py")
+        comp = sh(f"cd {root} && /venv/bin/python -m compileall -q happysimulator")
+        demo_with = sh(f"cd /tmp && HS_ROOT={root} timeout 300 /venv/bin/python {d}/demo.py")
         out["demo_with_patch"] = demo_with.returncode
         for p in props:
-            c = sh(f"cd /verif && /venv/bin/python check.py {p} --tier quick --evidence-dir /tmp/seed_ev")
+            c = sh(f"cd /verif && /venv/bin/python check.py {p} --tier quick --root {root} --evidence-dir /tmp/seed_ev")
             fails = [l.strip() for l in c.stdout.splitlines() if l.strip().startswith("FAIL")]
             out["checks"][p] = {"exit": c.returncode, "fails": fails[:6], "analysis_error": [l for l in c.stdout.splitlines() if "ANALYSIS-ERROR" in l][:2]}
     finally:
-        sh("git -C /repo checkout -- . && git -C /repo clean -fdq happysimulator")
-    demo_without = sh(f"cd /tmp && HS_ROOT=/repo timeout 120 /venv/bin/python {d}/demo.py")
+        if copy:
+            shutil.rmtree(root, ignore_errors=True)
+        else:
+            sh("git -C /repo checkout -- . && git -C /repo clean -fdq happysimulator")
+    demo_without = sh(f"cd /tmp && HS_ROOT=/repo timeout 300 /venv/bin/python {d}/demo.py")
     out["demo_without_patch"] = demo_without.returncode
     out["compiles"] = comp.returncode == 0
     print(json.dumps(out, indent=1))
@@ -47,8 +61,10 @@ def main():
                 shutil.copy(f"{d}/{f}", dst)
         meta["verified_here"] = {"demo_with_patch_exit": out["demo_with_patch"], "demo_without_patch_exit": out["demo_without_patch"], "compiles": out["compiles"],
                                  "checks_run": {p: {"exit": v["exit"], "reported": v["fails"][:3] or v["analysis_error"]} for p, v in out["checks"].items()},
-                                 "commands": [f"git -C /repo apply seeded/{keep}/patch.diff", f"HS_ROOT=/repo /venv/bin/python seeded/{keep}/demo.py",
-                                              *[f"/venv/bin/python check.py {p} --tier quick" for p in props], "git -C /repo checkout -- ."]}
+                                 "commands": ([f"cp -r /repo/happysimulator /tmp/seedcopy/ && (cd /tmp/seedcopy && patch -p1 < seeded/{keep}/patch.diff)", f"HS_ROOT=/tmp/seedcopy /venv/bin/python seeded/{keep}/demo.py",
+                                               *[f"/venv/bin/python check.py {p} --tier quick --root /tmp/seedcopy" for p in props], "rm -rf /tmp/seedcopy"] if copy else
+                                              [f"git -C /repo apply seeded/{keep}/patch.diff", f"HS_ROOT=/repo /venv/bin/python seeded/{keep}/demo.py",
+                                               *[f"/venv/bin/python check.py {p} --tier quick" for p in props], "git -C /repo checkout -- ."])}
         json.dump(meta, open(f"{dst}/meta.json", "w"), indent=1)
     return 0
 
